@@ -379,15 +379,18 @@ func c14Names(r *run.Run) {
 				s = string(rs)
 			} else {
 				var rs []rune
-				for _, hi := range []rune{0x10000, 0x10001, 0x103FF, 0x10400, 0xFFFFF, 0x100000, 0x10FC00, 0x10FFFE, 0x10FFFF} {
-					rs = append(rs, hi, 'x')
+				// every combination of the corner high surrogates {D800, D801, DBFE, DBFF} and low surrogates {DC00, DC01, DFFE, DFFF}
+				for _, hi := range []rune{0xD800, 0xD801, 0xDBFE, 0xDBFF} {
+					for _, lo := range []rune{0xDC00, 0xDC01, 0xDFFE, 0xDFFF} {
+						rs = append(rs, 0x10000+(hi-0xD800)<<10+(lo-0xDC00), 'x')
+					}
 				}
 				s = string(rs)
-				c.Nontrivial()
 			}
 			if s == "" {
 				c.Skip("empty block")
 			}
+			c.Nontrivial()
 			c.Sample(func() any { return fmt.Sprintf("%d runes starting %U", len([]rune(s)), []rune(s)[0]) })
 			info := &name.Info{Windows: name.Tables{"en-US": &name.Table{Description: s}}}
 			b := info.Encode(1)
